@@ -1004,3 +1004,6 @@ package collection
 //@   ensures implies(hit2, v == v2 && err == nil && !stored)
 //@   ensures implies(!hit2 && ret(fetch, 1) != nil, err == ret(fetch, 1) && v == nil && !stored)
 //@   ensures implies(!hit2 && ret(fetch, 1) == nil, err == nil && v == ret(fetch, 0) && stored)
+// "fresh" (= a miss in the statistics) is reported exactly by the caller whose own fetch ran and succeeded - not by a flight
+// leader whose double-check found a value stored by an execution that had already finished
+//@   ensures fresh == (old(fresh) || (!hit2 && ret(fetch, 1) == nil))
